@@ -20,6 +20,16 @@ fails = [re.sub(r'^\s*zz_replay_test.go:\d+:\s*', '', l) for l in log.split('\n'
 viol = 0; rcx = 0
 if not ran:
     print(f"ERROR witness suite did not run (see out/{prop}_witness.log)"); rcx = 2
+elif not fails and trc != 0 and re.search(r'^(fatal error:|panic:)', log, re.M):
+    # the suite crashed (a data race the runtime detects, a panic outside the suite's own recover): the crash is the witness
+    crash = [l for l in log.split('\n') if re.match(r'^(fatal error:|panic:|goroutine \d+ \[running\]|\t/|[\w./()*]+\(.*\)$)', l)][:25]
+    path = os.path.abspath(f'{OUT}/replay/{prop}/witness_suite.json')
+    json.dump({"property":prop,"obligation":"witness:"+os.path.basename(testfile),"kind":"witness","failing_inputs":["the witness suite crashed: "+crash[0]] if crash else ["the witness suite crashed"],
+               "crash":crash,"replay":{"attempted":True,"confirmed":True,"how":"go test -overlay of "+testfile+" on the working tree ends in a runtime crash"}}, open(path,'w'), indent=1)
+    print(f"VIOLATION property={prop} replay={path}")
+    viol = 1
+elif not fails and trc != 0:
+    print(f"ERROR witness suite failed without naming a violation (see out/{prop}_witness.log)"); rcx = 2
 elif fails:
     path = os.path.abspath(f'{OUT}/replay/{prop}/witness_suite.json')
     json.dump({"property":prop,"obligation":"witness:"+os.path.basename(testfile),"kind":"witness","failing_inputs":fails[:50],
